@@ -14,6 +14,21 @@
     expand_dim    path = address of the allocation; extent and indexing expression read off output
     bind_expr     path = address of the STATEMENT containing the bound expression (the stream's
                   path minus its trailing expression steps `rhs`/`lhs`/`arg`/`args k`)
+  dimension rewrites (path = address of the allocation in all five):
+    divide_dim    k = dim_idx, flag unused; the quotient is read off the output allocation
+                  (extent number k+1 must be an integer literal)
+    mult_dim      k = 16 * hi_dim_idx + lo_dim_idx, flag unused
+    rearrange_dim k = Σ_i permute_vector[i] * 16^i (little-endian base 16; the length N of the
+                  vector is the rank of the input allocation: `permute_vector[i] = (k / 16^i) % 16`
+                  for `i < N`), flag unused.  A vector of another length than N is rejected by the
+                  real wrapper and cannot be encoded — nothing to check then.
+    resize_dim    k = dim_idx, flag = fold.  flag = true: "no storage model" (DoFoldBuffer is not
+                  modelled).  flag = false: the new size is read off the output allocation
+                  (extent number k), the offset off the first access to the buffer in the output
+                  (its k-th index must be `_ - offset`; literal 0 if the buffer is never accessed).
+    unroll_buffer k = dimension, flag unused; the fresh names are read off the output (the first
+                  m statements at `path`, m = number of used indices computed by the model) and
+                  checked fresh and distinct
 -/
 import ExoModel.RwCheck
 import ExoModel.RewriteStorage
@@ -102,6 +117,54 @@ def headIdxL (x : Sym) : List Stmt → List Expr
   | s :: r => headIdxS x s ++ headIdxL x r
 end
 
+/-! ### `d`-th index of every access to a buffer (to read the offset of `resize_dim` off the
+output; a window interval contributes its lower end) -/
+
+mutual
+def dimIdxE (x : Sym) (d : Nat) : Expr → List Expr
+  | .read y idx => (if y == x then (idx[d]?).toList else []) ++ dimIdxEs x d idx
+  | .lit _ => []
+  | .usub e => dimIdxE x d e
+  | .binop _ a b => dimIdxE x d a ++ dimIdxE x d b
+  | .extern _ args => dimIdxEs x d args
+  | .win y acc =>
+    (if y == x then
+      (match acc[d]? with
+       | some (.point i) => [i]
+       | some (.interval a _) => [a]
+       | none => [])
+     else []) ++ dimIdxWs x d acc
+  | .stride _ _ => []
+  | .readcfg _ _ => []
+def dimIdxEs (x : Sym) (d : Nat) : List Expr → List Expr
+  | [] => []
+  | e :: r => dimIdxE x d e ++ dimIdxEs x d r
+def dimIdxW (x : Sym) (d : Nat) : WAcc → List Expr
+  | .interval a b => dimIdxE x d a ++ dimIdxE x d b
+  | .point a => dimIdxE x d a
+def dimIdxWs (x : Sym) (d : Nat) : List WAcc → List Expr
+  | [] => []
+  | w :: r => dimIdxW x d w ++ dimIdxWs x d r
+end
+
+mutual
+def dimIdxS (x : Sym) (d : Nat) : Stmt → List Expr
+  | .assign y idx e => (if y == x then (idx[d]?).toList else []) ++ dimIdxEs x d idx ++ dimIdxE x d e
+  | .reduce y idx e => (if y == x then (idx[d]?).toList else []) ++ dimIdxEs x d idx ++ dimIdxE x d e
+  | .writecfg _ _ e _ => dimIdxE x d e
+  | .ite c t e => dimIdxE x d c ++ dimIdxL x d t ++ dimIdxL x d e
+  | .loop _ lo hi b _ => dimIdxE x d lo ++ dimIdxE x d hi ++ dimIdxL x d b
+  | .call _ args => dimIdxEs x d args
+  | .window _ e => dimIdxE x d e
+  | _ => []
+def dimIdxL (x : Sym) (d : Nat) : List Stmt → List Expr
+  | [] => []
+  | s :: r => dimIdxS x d s ++ dimIdxL x d r
+end
+
+/-- `permute_vector` from its base-16 encoding (`n` = rank of the buffer) -/
+def decodePerm (n k : Nat) : List Nat := (List.range n).map (fun i => (k / 16 ^ i) % 16)
+
 /-- `flag` and `k` as in `Rw.check`.
 
   **lift_alloc, the off-by-one.**  `path` addresses the allocation; write `L = path.length`.
@@ -172,6 +235,59 @@ def checkStorage (name : String) (path : Path) (k : Nat) (flag : Bool)
       expect (mentionsS t s') "bind_expr: nothing was replaced in the statement"
       same (rewriteAt (bindExpr t e s') path before) after
     | _ => throw "bind_expr: output does not start with `t : _ ; t = e ; s'` at this path"
+  | "divide_dim" =>
+    -- k = dim_idx; the quotient is read off the output allocation
+    match getAt path before, getAt path after with
+    | some (.alloc x _ :: _), some (.alloc x2 sh2 :: _) =>
+      expect (x2 == x) "divide_dim: the allocation changed its name"
+      match sh2[k + 1]? with
+      | some (.lit (.int q)) => same (rewriteAt (divideDim k q) path before) after
+      | _ => throw "divide_dim: extent k+1 of the output allocation is not an integer literal"
+    | _, _ => throw "divide_dim: unexpected shape"
+  | "mult_dim" =>
+    -- k = 16 * hi + lo
+    match getAt path before, getAt path after with
+    | some (.alloc x _ :: _), some (.alloc x2 _ :: _) =>
+      expect (x2 == x) "mult_dim: the allocation changed its name"
+      same (rewriteAt (multDim (k / 16) (k % 16)) path before) after
+    | _, _ => throw "mult_dim: unexpected shape"
+  | "rearrange_dim" =>
+    -- k = Σ perm[i] * 16^i
+    match getAt path before, getAt path after with
+    | some (.alloc x sh :: _), some (.alloc x2 _ :: _) =>
+      expect (x2 == x) "rearrange_dim: the allocation changed its name"
+      same (rewriteAt (rearrangeDim (decodePerm sh.length k)) path before) after
+    | _, _ => throw "rearrange_dim: unexpected shape"
+  | "resize_dim" =>
+    -- k = dim_idx, flag = fold
+    if flag then throw "no storage model for resize_dim(fold=True)"
+    else
+      match getAt path before, getAt path after with
+      | some (.alloc x _ :: _), some (.alloc x2 sh2 :: r2) =>
+        expect (x2 == x) "resize_dim: the allocation changed its name"
+        match sh2[k]? with
+        | some size =>
+          let off : Expr := match (dimIdxL x k r2).head? with
+            | some (.binop .sub _ o) => o
+            | _ => .lit (.int 0)
+          same (rewriteAt (resizeDim k size off) path before) after
+        | none => throw "resize_dim: the output allocation has no dimension k"
+      | _, _ => throw "resize_dim: unexpected shape"
+  | "unroll_buffer" =>
+    -- k = dimension; fresh names read off the output
+    match getAt path before, getAt path after with
+    | some (.alloc x sh :: r), some sa =>
+      match unrollOrder x k sh r with
+      | none => throw "unroll_buffer: model rewrite does not apply (non-literal extent or access)"
+      | some order =>
+        let names := (sa.take order.length).filterMap
+          (fun s => match s with | .alloc y _ => some y | _ => none)
+        expect (names.length == order.length)
+          "unroll_buffer: output does not start with one allocation per used index"
+        expect (names.all (fun y => !mentionsL y before)) "unroll_buffer: a new buffer's name is not fresh"
+        expect (names.eraseDups.length == names.length) "unroll_buffer: two new buffers share a name"
+        same (rewriteAt (unrollBuffer k names) path before) after
+    | _, _ => throw "unroll_buffer: unexpected shape"
   | _ => throw s!"no storage model for {name}"
 
 end Exo.Rw
